@@ -511,6 +511,8 @@ func verifDir() string {
 	return "/verif"
 }
 
+var enumFull bool
+
 func modelSchedules(tier string, seed uint64) ([]string, error) {
 	exe := filepath.Join(verifDir(), "lean", ".lake", "build", "bin", "vxdrv_C08Sched")
 	cmd := exec.Command(exe)
@@ -531,6 +533,9 @@ func modelSchedules(tier string, seed uint64) ([]string, error) {
 		}
 		if strings.HasPrefix(t, "S ") {
 			res = append(res, t[2:])
+		}
+		if t == "FULL" {
+			enumFull = true // every interleaving of every scripted input is in the list (no stride)
 		}
 	}
 	if !done {
@@ -577,6 +582,7 @@ func runAll(r *hx.Run) error {
 		r.Note("model-enumeration", "unavailable: "+err.Error())
 	} else {
 		r.Note("model-enumeration", len(ms))
+		r.Note("all-interleavings-of-the-scripted-inputs", enumFull)
 		scheds = append(scheds, ms...)
 	}
 	type res struct {
